@@ -17,11 +17,12 @@ Reset == IsEvent("Reset") /\ fs' = <<>> /\ open' = [a \in Agents |-> [f \in Fids
 LogFs == LET S == ToSet(E.st.fs) IN [p \in {x.path : x \in S} |-> (CHOOSE x \in S : x.path = p).content]
 Seen == lfs' = LogFs /\ oth' = E.st.other
 
-Act == \/ IsEvent("Open") /\ Open(E.a, E.f, E.n)
+Act == \/ IsEvent("Open") /\ Open(E.a, E.f, E.n, E.c)
        \/ IsEvent("Write") /\ Write(E.a, E.f, E.c)
        \/ IsEvent("Close") /\ Close(E.a, E.f)
        \/ IsEvent("ServiceFile") /\ ServiceFile(E.a, E.n, E.c)
        \/ IsEvent("CraftedFile") /\ CraftedFile(E.a, E.c)
+       \/ IsEvent("Restart") /\ Restart
 (* strict: the listing is exactly what the model predicts; monitor: the model runs alongside as the reference *)
 TraceNext == Reset \/ (Act /\ Seen /\ (Strict => fs' = LogFs /\ E.st.other = <<>>))
 TraceSpec == TraceInit /\ [][TraceNext]_tvars
